@@ -132,8 +132,7 @@ def check_tree(seed, use_git):
             if missing:
                 if rc == 0:
                     problems.append((args, "a nonexistent path was given but the exit status is 0"))
-                if "no_such_path.c" not in out:
-                    problems.append((args, "the nonexistent path is not named in the message"))
+                # (the statement asks for the non-zero status only; a message naming the path is not required)
                 continue
             if sorted(want) != got:
                 problems.append((args, f"checked files {got}, expected {sorted(want)}"))
